@@ -9,14 +9,18 @@ from vlib import registry, overlay, kani, runner
 
 def main():
     args = sys.argv[1:]
-    par = 10; scale = 1.0; pats = []; excl = None
+    par = 10; scale = 1.0; pats = []; excl = None; quick = False
     i = 0
     while i < len(args):
         if args[i] == "--par": par = int(args[i+1]); i += 2
         elif args[i] == "--scale": scale = float(args[i+1]); i += 2
         elif args[i] == "--exclude": excl = args[i+1]; i += 2
+        elif args[i] == "--quick": quick = True; i += 1
         else: pats.append(args[i]); i += 1
     names = [n for n in registry.H if (not pats or any(re.search(p, n) for p in pats)) and not (excl and re.search(excl, n))]
+    if quick:
+        qs = set(h for l in registry.QUICK.values() for h in l)
+        names = [n for n in names if n in qs]
     variants = {}
     for n in names:
         v = registry.H[n].get("variant", "default")
